@@ -51,7 +51,7 @@ def main(argv=None):
     try:  # a mis-decoded value can make the library allocate without bound
         import resource
 
-        lim = 6 * 1024**3
+        lim = 3 * 1024**3 // 2
         soft, hard = resource.getrlimit(resource.RLIMIT_AS)
         if hard == resource.RLIM_INFINITY or hard > lim:
             resource.setrlimit(resource.RLIMIT_AS, (lim, hard))
